@@ -30,12 +30,19 @@ def build(d):
     if d["kind"] == "nd":
         return arr, list(range(nf)), nf
     names = [f"f{i}" for i in range(nf)] + ["y"]
+    lab = d.get("labels", "str")
+    if lab == "int-permuted":  # integer labels that differ from the positions
+        names = [(i * 2 + 1) % (nf + 1) if (nf + 1) % 2 else (i + 1) % (nf + 1) for i in range(nf + 1)]
+        if sorted(names) != list(range(nf + 1)):
+            names = list(range(nf, -1, -1))
+    elif lab == "int-offset":
+        names = [10 + i for i in range(nf + 1)]
     if ckind == "int":
         df = pd.DataFrame(arr, columns=names)
     else:
         df = pd.DataFrame({names[j]: feats[:, j] for j in range(nf)})
-        df["y"] = [cls_value(k, ckind) for k in d["cls"]]
-    return df, names[:nf], "y"
+        df[names[nf]] = [cls_value(k, ckind) for k in d["cls"]]
+    return df, names[:nf], names[nf]
 
 
 def values(x):
@@ -191,6 +198,8 @@ def check_frame(case, ctx):
             if tuple(r.tolist()) not in win:
                 fail("resample-row-not-from-window", f"output row {tuple(r.tolist())} inside the window is not a row of the window")
     ctx.label(which, d["kind"], "classes=" + ckind)
+    if d["kind"] == "df":
+        ctx.label("labels=" + d.get("labels", "str"))
     if a == b:
         ctx.label("empty-window")
     elif a == 0 and b == n:
@@ -214,7 +223,14 @@ def inj_case_data(draw):
     if unique_rows:
         feats = [[float(i)] + r[1:] for i, r in enumerate(feats)]  # first feature = unique id
     cls = draw(st.lists(st.integers(0, ncls - 1), min_size=n, max_size=n))
-    return {"kind": kind, "feats": feats, "cls": cls, "ckind": draw(st.sampled_from(["int", "int", "str"])), "unique_rows": unique_rows}
+    return {
+        "kind": kind,
+        "feats": feats,
+        "cls": cls,
+        "ckind": draw(st.sampled_from(["int", "int", "str"])),
+        "unique_rows": unique_rows,
+        "labels": draw(st.sampled_from(["str", "str", "int-permuted", "int-offset"])),
+    }
 
 
 def strat_frame(tier):
@@ -299,6 +315,58 @@ def check_frequencies(case, ctx):
     ctx.label("frequencies-tested", f"classes={len(classes_all)}")
 
 
+def check_dirichlet(case, ctx):
+    """LabelDirichletInjector: a class whose concentration is 5000x the others' must receive (nearly) the whole window."""
+    from menelaus import injection as inj
+
+    d = case["data"]
+    data, fcols, ycol = build(d)
+    A = values(data)
+    n, ncol = A.shape
+    nf = ncol - 1
+    a, b = window(case, n)
+    classes_all = sorted(set(A[:, nf].tolist()), key=str)
+    if b - a < 4 or set(classes_all) != set(A[a:b, nf].tolist()) or len(classes_all) < 2:
+        ctx.label("discard-classes-not-all-in-window")
+        return
+    dom = classes_all[case["dominant"] % len(classes_all)]
+    order = [classes_all[i % len(classes_all)] for i in case["order"]]
+    keys = []
+    for k in order + classes_all:
+        if k not in keys:
+            keys.append(k)
+    alpha = {k: (5000.0 if k == dom else 1.0) for k in keys}  # insertion order drawn, not sorted
+    tot = hit = 0
+    for r in range(case["repeats"]):
+        np.random.seed(case["seed"] + r)
+        with sut(injector="LabelDirichlet"):
+            out = inj.LabelDirichletInjector()(data, a, b, ycol, dict(alpha))
+        O = values(out)
+        if not cells_equal(O[:a], A[:a]) or not cells_equal(O[b:], A[b:]):
+            raise Violation("injector-outside-window-changed", "LabelDirichletInjector changed rows outside the window", injector="LabelDirichlet")
+        col = O[a:b, nf].tolist()
+        tot += len(col)
+        hit += sum(1 for v in col if v == dom)
+    if hit < 0.9 * tot:
+        raise Violation(
+            "dirichlet-frequencies",
+            f"LabelDirichletInjector window [{a},{b}) alpha={ {str(k): v for k, v in alpha.items()} }: class {dom!r} (concentration 5000 vs 1) received {hit} of {tot} resampled rows",
+            injector="LabelDirichlet",
+        )
+    ctx.label("dirichlet-tested")
+    if list(alpha.keys()) != sorted(alpha.keys(), key=str):
+        ctx.label("unsorted-alpha-keys")
+
+
+def strat_dirichlet(tier):
+    @st.composite
+    def s(draw):
+        c = draw(strat_frequencies(tier))
+        return {"data": c["data"], "window": c["window"], "dominant": draw(st.integers(0, 2)), "order": draw(st.lists(st.integers(0, 2), min_size=0, max_size=3)), "repeats": 6, "seed": c["seed"]}
+
+    return s()
+
+
 def strat_frequencies(tier):
     @st.composite
     def s(draw):
@@ -342,7 +410,7 @@ PROPERTY = {
         "columns identical; inside the window the documented effect (swap + involution, label swap + involution, join, shift by "
         "shift_factor*(alpha+window mean), +-1/sqrt(steps) walk from x0, resampled rows come from the window; FeatureCover: n per group, each "
         "input row used at most once, traced through a unique id column). Non-trivial = non-empty proper window with >= 2 classes / distinct "
-        "columns. resampling_frequencies: 30-60 seeded draws per case, classes all present in the window, exact binomial tail test at 1e-10."
+        "columns; DataFrames carry string labels or integer labels that differ from the positions. dirichlet_dominant_class: alpha dicts in drawn (unsorted) insertion order with one concentration 5000x the others - that class must receive >= 90 % of the resampled window. resampling_frequencies: 30-60 seeded draws per case, classes all present in the window, exact binomial tail test at 1e-10."
     ),
     "assumptions": [
         "feature columns are floats (shift / noise on integer-typed arrays would truncate)",
@@ -351,6 +419,7 @@ PROPERTY = {
     ],
     "subchecks": [
         SubCheck("frame_effect", check_frame, strategy=strat_frame, nontrivial=lambda L: "nontrivial" in L, quick=3000, thorough=60000, shards_quick=16, describe=_desc),
+        SubCheck("dirichlet_dominant_class", check_dirichlet, strategy=strat_dirichlet, nontrivial=lambda L: "unsorted-alpha-keys" in L, quick=250, thorough=4000, shards_quick=8, describe=_desc),
         SubCheck("resampling_frequencies", check_frequencies, strategy=strat_frequencies, nontrivial=lambda L: "frequencies-tested" in L, quick=250, thorough=4000, shards_quick=8, describe=_desc),
     ],
 }
